@@ -173,7 +173,8 @@ namespace sim
          run_with( c, in, out );
       }
       SIM_UNPOISON( g_arena, ARENA );
-      out.h.swap( W.h );
+      out.h.assign( W.h.begin(), W.h.end() );  // W.h keeps its (large) buffer across runs
+      W.h.clear();
       out.excs.swap( W.excs );
       out.aborted = W.aborted;
       out.asan_hits = W.asan_hits;
@@ -181,7 +182,6 @@ namespace sim
       out.max_depth = W.max_open_depth;
       out.reads_after_eof = W.reads_after_eof;
       out.hash = history_hash( out.h, out.excs );
-      W.h.reserve( 65536 );
       return out;
    }
 
